@@ -55,6 +55,15 @@ type alignedBlockInfo struct {
 	posArray     []int            // the start POS from the sam file for each mapping in seqpairArray
 }
 
+// insertAt returns a new slice that is row with ins inserted before index at
+func insertAt(row []byte, at int, ins []byte) []byte {
+	out := make([]byte, 0, len(row)+len(ins))
+	out = append(out, row[:at]...)
+	out = append(out, ins...)
+	out = append(out, row[at:]...)
+	return out
+}
+
 // blockToSeqPair converts a block of sam records corresponding to the same query sequence to a pairwise
 // alignment between reference and query, including insertions in the query relative to the reference
 func blockToSeqPair(alignedBlock alignedBlockInfo, ref []byte) alignPair {
@@ -111,15 +120,17 @@ func blockToSeqPair(alignedBlock alignedBlockInfo, ref []byte) alignPair {
 		for _, insertion := range insertions {
 			// this is the pair it is already present in, which we will skip:
 			rowNumber := insertion.rowNumber
-			for j, seqPair := range alignedBlock.seqpairArray {
-				// don't reinsert - the insertion already exists in this one
+			for j := range alignedBlock.seqpairArray {
+				// don't reinsert - the insertion already exists in this one, but it does shift the
+				// coordinates of everything that comes after it in this row
 				if j == rowNumber {
+					offsets[j] += insertion.length
 					continue
 				}
 
 				// if the insertions starts after the (offset) length of this sequence,
 				// we don't have to do anything to this pair here
-				if insertion.start > len(alignedBlock.seqpairArray[j].ref)-offsets[j] {
+				if insertion.start > len(refSeqArray[j])-offsets[j] {
 					continue
 				}
 
@@ -129,13 +140,10 @@ func blockToSeqPair(alignedBlock alignedBlockInfo, ref []byte) alignPair {
 					gaps[k] = '-'
 				}
 
-				refSeqArray[j] = refSeqArray[j][:insertion.start+offsets[j]]
-				refSeqArray[j] = append(refSeqArray[j], gaps...)
-				refSeqArray[j] = append(refSeqArray[j], seqPair.ref[insertion.start+offsets[j]:]...)
-
-				queSeqArray[j] = seqPair.query[:insertion.start+offsets[j]]
-				queSeqArray[j] = append(queSeqArray[j], gaps...)
-				queSeqArray[j] = append(queSeqArray[j], seqPair.query[insertion.start+offsets[j]:]...)
+				// (the rows are rebuilt in fresh slices: they share their backing arrays with the block's
+				// records, and an earlier insertion may already have been gapped into them)
+				refSeqArray[j] = insertAt(refSeqArray[j], insertion.start+offsets[j], gaps)
+				queSeqArray[j] = insertAt(queSeqArray[j], insertion.start+offsets[j], gaps)
 
 				// and we add the relevant offset to account for this insertion in future coordinates
 				offsets[j] += insertion.length
